@@ -117,6 +117,14 @@ Fixpoint name_of (w : str) (t : list (str * cname)) : cname :=
   | (n, c) :: t' => if str_eqb n w then c else name_of w t'
   end.
 
+(** The commands each handler's [switch cmd] names; every other command of the table falls
+    to its default branch (out of sequence).  Pinned against the source by
+    Props/C13/command_table_pinned.v (Gen/Pop3Consts.v). *)
+Definition in_auth_switch (c : cname) : bool :=
+  match c with QUIT | STLS | USER | PASS | APOP => true | _ => false end.
+Definition in_trans_switch (c : cname) : bool :=
+  match c with STAT | LIST | UIDL | DELE | RETR | TOP | QUIT | NOOP | RSET => true | _ => false end.
+
 (** The order of the tests in startSession: CAPA, empty word, command table. *)
 Definition classify (word : str) (args : list str) : cmd :=
   if str_eqb word w_CAPA then CCapa
